@@ -445,9 +445,10 @@ def parse_model(s):
         return {"exc": s[4:]}
     parts = s.split(" | ")
     items, ms, p, vec = parts[0], parts[1], parts[2], parts[3] if len(parts) > 3 else ""
+    recs = sorted(parts[4].strip().split(",")) if len(parts) > 4 else None
     P = cy_to_complex(re.findall(r"<([^>]*)>", p)[0])
     v = np.array([cy_to_complex(x) for x in re.findall(r"<([^>]*)>", vec)], dtype=complex)
-    return {"exc": None, "items": items.strip(), "ms": ms.strip(), "P": P, "v": v}
+    return {"exc": None, "items": items.strip(), "ms": ms.strip(), "P": P, "v": v, "records": recs}
 
 
 # ------------------------------------------------------------------------------------------ checks of one case
@@ -748,6 +749,107 @@ def sampled_checks(ck, case, ci, leaves, psi0, n_shots):
             ck.violation(sig, desc, {"kind": "sampled", "case": case, "mode": mode, "n_shots": n_shots, "seed": seed})
 
 
+# ------------------------------------------------------------------------------------------ wide / long shot records
+CLASSICAL = ["X", "X", "CNOT", "CX", "SWAP", "CSWAP", "Z", "S", "T"]
+
+
+def classical_units(rng, n, k):
+    return [["u", s] for s in LC.rand_gate_list(rng, n, k, CLASSICAL, max_controls=2, var_p=0.0, edge_p=0.0, echo_p=0.0)]
+
+
+def gen_record_case(rng, tier, idx):
+    """4-6 qubits, 6-16 mid-circuit measurements on a reversible-classical circuit with 0-2 Hadamards: the shot
+    record (>= 11, every other case >= 21 characters) is deterministic or has 2-4 possible values, so support and
+    marginals of all_frequencies / mid_circuit_meas_freqs are decided exactly."""
+    want = 21 if idx % 2 else 11
+    n = rng.choice([5, 6] if want == 21 else [4, 5, 6])
+    lo = max(6, want - n)
+    n_meas = rng.randint(lo, max(lo, 16))
+    h_slots = set(rng.sample(range(n_meas), rng.choice([0, 0, 1, 1, 2])))
+    with_cd = idx % 3 == 2
+    prog = [["u", {"name": "X", "target": [q], "control": None, "k": None, "var": False}]
+            for q in range(n) if rng.random() < 0.5]
+    for j in range(n_meas):
+        prog += classical_units(rng, n, rng.randint(0, 2))
+        q = rng.randrange(n)
+        if j in h_slots:
+            prog.append(["u", {"name": "H", "target": [q], "control": None, "k": None, "var": False}])
+        if with_cd and rng.random() < 0.2:
+            prog.append(["cd", q, classical_units(rng, n, rng.randint(0, 2)), classical_units(rng, n, rng.randint(0, 2))])
+        else:
+            prog.append(["m", q])
+    prog += classical_units(rng, n, rng.randint(0, 2))
+    return {"n": n, "prefix": [], "prog": prog, "ctl": None, "style": "records", "save": True, "pass_isv": False}
+
+
+def records_desired(case, mode, n_shots, b, branch, vecs, seed):
+    """desired_meas_result with finite n_shots: 'all' = all shots at once then post-selection (no statevector),
+    'shots' = shot by shot until the desired string is measured (return_statevector=True).  Returns problems."""
+    from tangelo.linq import get_backend
+    n = case["n"]
+    np.random.seed(seed)
+    circ = make_circuit(case)
+    sim = get_backend("cirq", n_shots=n_shots)
+    f, sv = sim.simulate(circ, desired_meas_result=b, return_statevector=(mode == "shots"))
+    allf, mid = sim.all_frequencies, sim.mid_circuit_meas_freqs
+    bad = []
+    for k in allf:
+        ms, x = k[:len(k) - n], k[len(k) - n:]
+        if ms not in branch or branch[ms][int(x, 2)] < 1e-12:
+            bad.append("record %s + %s has Born probability zero" % (ms, x))
+    if abs(sum(allf.values()) - 1) > 1e-9:
+        bad.append("all_frequencies do not sum to one")
+    why = mid_not_marginal(mid, allf, n)
+    if why:
+        bad.append("mid_circuit_meas_freqs %s" % why)
+    for k in f:
+        if branch[b][int(k, 2)] < 1e-12:
+            bad.append("returned final state %s is impossible after outcomes %s" % (k, b))
+    sel = {k[len(k) - n:]: v for k, v in allf.items() if k[:len(k) - n] == b}
+    tot = sum(sel.values())
+    exp = {k: v / tot for k, v in sel.items()} if tot > 0 else {}
+    if set(f) != set(exp) or any(abs(f[k] - exp[k]) > 1e-9 for k in exp):
+        bad.append("returned frequencies %r are not the sampled records post-selected on %s (%r)" % (f, b, exp))
+    if mode == "shots":
+        if set(k[:len(k) - n] for k in allf) != {b}:
+            bad.append("records %r do not all start with the desired outcomes %s" % (sorted(allf), b))
+        ref = vecs[b] / math.sqrt(branch[b].sum())
+        if sv is None or np.max(np.abs(np.array(sv) - ref)) > 1e-8:
+            bad.append("returned statevector is not the normalised branch state of %s" % b)
+    return bad, dict(allf)
+
+
+def records_checks(ck, case, ci, leaves, psi0, n_shots):
+    n = case["n"]
+    has_c = n_top(case, "c") > 0
+    branch, vecs, _ = branch_table(case, leaves, psi0)
+    oks = sorted(branch)
+    n_bits = (len(oks[0]) if oks else 0) + n
+    cls = "ge21" if n_bits >= 21 else ("ge11" if n_bits >= 11 else "lt11")
+    for mode in (["cmeasure", "oneshot"] if has_c else ["save", "nosave", "oneshot", "desired-all", "desired-shots"]):
+        seed = ck.rng.randrange(1 << 30)
+        replay = {"kind": "records", "case": case, "mode": mode, "n_shots": n_shots, "seed": seed}
+        try:
+            if mode.startswith("desired"):
+                b = oks[seed % len(oks)]
+                replay["b"] = b
+                bad, allf = records_desired(case, mode[8:], n_shots, b, branch, vecs, seed)
+                sig = "C10/cirq/records/%s/invariant" % mode if bad else None
+                desc = "; ".join(bad[:3])
+            else:
+                sig, desc, allf = sampled_one(case, mode, n_shots, psi0, leaves, seed)
+                if sig:
+                    sig = sig.replace("C10/cirq/sampled/", "C10/cirq/records/")
+        except Exception as e:          # noqa
+            sig, desc, allf = "C10/cirq/records/%s/exception" % mode, "simulate raised %r" % e, None
+        ck.case("records", json.dumps([ci, mode]), nontrivial=n_bits >= 11,
+                sample={"case": case, "mode": mode, "recorded_bits": n_bits, "frequencies": allf},
+                tags=[mode, "bits-" + cls, "branches=%d" % len(oks)])
+        if sig:
+            ck.violation(sig, "%d recorded bits (%d outcomes + %d qubits), n_shots=%d: %s; program %s"
+                         % (n_bits, n_bits - n, n, n_shots, desc, json.dumps(case["prog"])[:400]), replay)
+
+
 def malformed_strings(ck, case, leaves):
     """Desired strings that name no leaf: a proper prefix of a leaf and an over-long one."""
     out = []
@@ -810,6 +912,8 @@ def run(ck):
             cases.append(json.loads(f.read_text())["case"])
     for i in range(n_prog):
         cases.append(gen_case(ck.rng, ck.tier, i))
+    for i in range(12 if ck.tier == "quick" else 90):
+        cases.append(gen_record_case(ck.rng, ck.tier, i))
     ck.stream("programs", "random programs (2-4 qubits, 0-4 top-level MEASURE/CMEASURE, dictionary / function / "
               "ClassicalControl control, nesting depth <= 2, prefix-circuit initial states) x ALL outcome strings of the "
               "measurement tree (depth cap %d) + a too-short and a too-long string; non-trivial = outcome with probability "
@@ -817,18 +921,28 @@ def run(ck):
     ck.stream("generate_applied_gates", "same programs and strings through generate_applied_gates; non-trivial = no exception")
     ck.stream("totals", "per program: sum over outcome strings, weighted branch distributions vs unconditioned distribution; "
               "non-trivial = at least two possible outcome strings")
+    ck.stream("records", "wide / long shot records: 4-6 qubits, 6-16 mid-circuit MEASUREs (some dictionary-controlled) on "
+              "reversible-classical circuits with 0-2 Hadamards, >= 11 and >= 21 recorded bits, every record-building branch "
+              "(all shots at once, density matrix, one shot + statevector, desired string with all-at-once post-selection, "
+              "desired string shot by shot, CMEASURE loop); exact invariants only; non-trivial = >= 11 recorded bits")
     ck.stream("sampled", "per program (subset): finite n_shots, save_mid_circuit_meas on/off; non-trivial = >= 2 possible outcome strings")
     work = []
-    exprs_sim, exprs_gen, exprs_sel = [], [], []
+    exprs_sim, exprs_gen, exprs_sel, exprs_rec, rec_keys = [], [], [], [], []
     for ci, case in enumerate(cases):
         psi0 = psi0_of(case)
-        leaves, trunc = enumerate_outcomes(case, psi0, max_len)
-        if len(leaves) > 40:
-            leaves = leaves[:40]
-            trunc = None
-        extra = [(b, "malformed", 0.0) for b in malformed_strings(ck, case, leaves)]
-        allb = leaves + extra
-        fuel = max_len + 3
+        is_rec = case.get("style") == "records"
+        leaves, trunc = enumerate_outcomes(case, psi0, 64 if is_rec else max_len)
+        if is_rec:
+            # exact runs: every possible outcome string and one impossible one
+            allb = [l for l in leaves if l[1] == "ok"] + [l for l in leaves if l[1] != "ok"][:1]
+            fuel = 70
+        else:
+            if len(leaves) > 40:
+                leaves = leaves[:40]
+                trunc = None
+            extra = [(b, "malformed", 0.0) for b in malformed_strings(ck, case, leaves)]
+            allb = leaves + extra
+            fuel = max_len + 3
         for (b, kind, p) in allb:
             exprs_sim.append("run_sim %s %s %s %s %s %s %s" % (coq_bool(asis), coq_nat(case["n"]), coq_nat(fuel), coq_ctl(case["ctl"]),
                                                            coq_list([LC.coq_gate(s) for s in case["prefix"]]),
@@ -837,15 +951,20 @@ def run(ck):
             exprs_gen.append("run_gen %s %s %s %s %s" % (coq_bool(asis), coq_nat(fuel), coq_ctl(case["ctl"]), coq_instrs(case["prog"]), d))
             exprs_sel.append("run_selected %s %s %s %s" % (coq_nat(fuel), coq_ctl(case["ctl"]), coq_instrs(case["prog"]), d))
         work.append((ci, case, psi0, leaves, trunc, allb))
+    import time as _time
+    t_eval = _time.time()
     try:
-        out_sim = ck.coq_eval("sim", PREAMBLE, exprs_sim, shard=max(40, len(exprs_sim) // 4 + 1), jobs=4)
-        out_gen = ck.coq_eval("gen", PREAMBLE, exprs_gen + exprs_sel, shard=max(200, len(exprs_gen) // 2 + 1), jobs=4)
+        out_sim = ck.coq_eval("sim", PREAMBLE, exprs_sim, shard=max(40, len(exprs_sim) // 3 + 1), jobs=3)
+        out_gen = ck.coq_eval("gen", PREAMBLE, exprs_gen + exprs_sel, shard=max(200, (2 * len(exprs_gen)) // 3 + 1), jobs=3)
         out_sel = out_gen[len(exprs_gen):]
         out_gen = out_gen[:len(exprs_gen)]
     except Exception as e:  # noqa  (model no longer evaluates): keep going with the oracles on the implementation
         ck.violation("C10/correspondence/model-evaluation", "the Coq model could not be evaluated: %s" % str(e)[-1500:],
                      {"kind": "model", "error": str(e)[-3000:]}, found_input=False)
         out_sim = out_gen = out_sel = None
+    ck.notes["timing_s"] = {"model_evaluation": round(_time.time() - t_eval, 1)}
+    t_impl = _time.time()
+    t_rec = 0.0
     pos = 0
     for (ci, case, psi0, leaves, trunc, allb) in work:
         k = len(allb)
@@ -854,14 +973,45 @@ def run(ck):
         msel = None if out_sel is None else {b: out_sel[pos + j] for j, (b, _, _) in enumerate(allb)}
         pos += k
         compare_case(ck, case, ci, allb, psi0, ms, mg, msel, asis)
+        if case.get("style") == "records":
+            if ms is not None:
+                # the model's records (outcomes + support of the exact branch vector) vs the oracle's
+                branch, _, _ = branch_table(case, leaves, psi0)
+                for b, w in branch.items():
+                    exp = sorted(b + format(x, "0%db" % case["n"]) for x in range(1 << case["n"]) if w[x] > 1e-12)
+                    got = parse_model(ms[b]).get("records")
+                    if got != exp:
+                        ck.violation("C10/correspondence/records", "outcomes %s: model records %r, numpy oracle %r" % (b, got, exp),
+                                     {"kind": "case", "case": case, "b": b}, found_input=False)
+            t0 = _time.time()
+            records_checks(ck, case, ci, leaves, psi0, 6 if ck.tier == "quick" else 12)
+            t_rec += _time.time() - t0
+            if trunc is not None and trunc < 1e-12:
+                total_checks(ck, case, ci, leaves, trunc, psi0)
+            continue
         if trunc is not None:
             total_checks(ck, case, ci, leaves, trunc, psi0)
         if ci % 2 == 0 and trunc is not None and trunc < 1e-12:
             sampled_checks(ck, case, ci, leaves, psi0, 20 if ck.tier == "quick" else 50)
+    ck.notes["timing_s"].update(implementation_and_oracles=round(_time.time() - t_impl, 1), of_which_records_stream=round(t_rec, 1))
 
 
 def replay(data):
     r = data["replay"]
+    if r.get("kind") == "records":
+        case = r["case"]
+        psi0 = psi0_of(case)
+        leaves, trunc = enumerate_outcomes(case, psi0, 64)
+        if r["mode"].startswith("desired"):
+            branch, vecs, _ = branch_table(case, leaves, psi0)
+            bad, allf = records_desired(case, r["mode"][8:], r["n_shots"], r["b"], branch, vecs, r["seed"])
+            print("all_frequencies:", allf)
+            print("; ".join(bad))
+            return 1 if bad else 0
+        sig, desc, f = sampled_one(case, r["mode"], r["n_shots"], psi0, leaves, r["seed"])
+        print("frequencies:", f)
+        print(sig, desc)
+        return 1 if sig else 0
     if r.get("kind") not in ("case", "totals", "sampled"):
         print(json.dumps(r, indent=1)[:4000])
         return 1
